@@ -179,7 +179,8 @@ def gen_world(r, anp=False, big=False, pods=True, multi_kind=True):
         W['netpols'].append({'ns': w['ns'], 'name': 'npnamed', 'podSelector': {'matchLabels': dict(w['labels'])} if w['labels'] else {},
                              'policyTypes': ['Ingress'],
                              'ingress': [{'from': [{'namespaceSelector': {}}],
-                                          'ports': [{'port': cp['name'], 'protocol': cp['proto']} for cp in cps]}]})
+                                          # (without `protocol` the entry means TCP, whatever protocol the pod declares the name under)
+                                          'ports': [({'port': cp['name']} if r.random() < 0.35 else {'port': cp['name'], 'protocol': cp['proto']}) for cp in cps]}]})
     if anp:
         def asubj():
             if r.random() < 0.5:
